@@ -6,7 +6,7 @@
   valid FEN text).
 -/
 import Flounder.Model.MakeMove
-import Flounder.Gen.Search
+import Flounder.Gen.Fen
 
 namespace Flounder
 
